@@ -93,3 +93,32 @@ Definition sdis (raw : list (N * N * N)) : list N := map snd raw.
 
 Definition stsc_of_table (raw : list (N * N * N)) : stsc_box :=
   mkStsc (entries32_from None raw) (fst (ids_repr (sdis raw))) (snd (ids_repr (sdis raw))).
+
+(* ---------- boolean hypotheses of the builder theorems ---------- *)
+Definition nz (x : N) : bool := negb (x =? 0).
+
+(* sample description ids are 1-based (DecodeStscSR refuses 0; AddEntry / SetSingle... do not look) *)
+Definition stsc_call_ok (c : stsc_call) : bool :=
+  match c with SAdd _ _ sdi => nz sdi | SSetSingle x => nz x end.
+
+(* rows of a file-level stsc table: samples per chunk >= 1, first chunks strictly increasing, last one <= C *)
+Fixpoint rows_ok (raw : list (N * N * N)) (C : N) : bool :=
+  match raw with
+  | [] => true
+  | (fc, sp, _) :: t =>
+    (1 <=? sp) && match t with
+                  | [] => fc <=? C
+                  | (fc', _, _) :: _ => (fc <? fc') && rows_ok t C
+                  end
+  end.
+
+(* samples held by each run but the last: (next first chunk - first chunk) * samples per chunk *)
+Fixpoint run_samples (raw : list (N * N * N)) : list N :=
+  match raw with
+  | (fc, sp, _) :: t =>
+    match t with
+    | (fc', _, _) :: _ => (fc' - fc) * sp :: run_samples t
+    | [] => []
+    end
+  | [] => []
+  end.
